@@ -70,6 +70,8 @@ def explore(c, schema, cfg):
 
 
 def cause(rec):
+    if rec.get("ev") == "Populate":
+        return "all-leaves-at-once", rec["type"].split(".")[-1]
     p = rec["path"]
     if not rec.get("reached", True):
         i = p.index("@blob") if "@blob" in p else 0
@@ -161,6 +163,14 @@ def run(c, a):
             d.update(mode="chain", id=base + len(more) + 1)
             more.append(d)
     obligs = obligs + more
+    if c.pid == "C12":
+        # all namespace leaves of a root type at once, judged by a descriptor-driven scan of what comes out
+        by_root = {}
+        for o in obligs[:base]:
+            by_root.setdefault(json.dumps(o["root"], sort_keys=True), []).append(o["path"])
+        for rk in sorted(by_root):
+            obligs.append({"id": len(obligs) + 1, "mode": "populate", "root": json.loads(rk), "paths": by_root[rk], "path": [], "leaf": "ns-recognised",
+                           "reached": True, "skipped": False, "inblob": False})
     # every obligation also with ONLY the translator under test configured (namespace translation without search-attribute
     # translation and vice versa are ordinary configurations; the other translator must not be what makes it work)
     solo = []
@@ -186,14 +196,14 @@ def run(c, a):
         rec = recs[ln - 1]
         if clause not in mine:
             continue
-        cz, detail = cause(rec) if clause == "untranslated" else (clause, rec["path"][-1])
+        cz, detail = cause(rec) if clause == "untranslated" else (clause, (rec.get("path") or [rec.get("type", "?")])[-1])
         sig = {"module": "SchemaWalk", "clause": clause, "cause": cz, "detail": detail}
         key = (clause, cz, detail)
         by_cause.setdefault(key, 0)
         by_cause[key] += 1
         if by_cause[key] == 1:
-            c.violation(sig, "%s (%s: %s) for %s path %s: in=%s out=%s err=%s" % (clause, cz, detail, rec["type"], "/".join(rec["path"]),
-                                                                                   rec["in"], rec["out"], rec["err"]),
+            c.violation(sig, "%s (%s: %s) for %s path %s: in=%s out=%s err=%s" % (clause, cz, detail, rec["type"], "/".join(rec.get("path") or []),
+                                                                                   rec.get("in", rec.get("inLocal")), rec.get("out", [rec.get("outLocal"), rec.get("outRemote"), rec.get("outOther")]), rec["err"]),
                         {"kind": "obligation", "record": rec})
     roots = len({r_["type"] for r_ in recs})
     if c.pid == "C14":
